@@ -50,7 +50,7 @@ Definition exec_ran (s : sources) (t : tdef) (b : bstate) : option world :=
 Definition exec_done (cfg : config) (i : nat) (t : tdef) (key : str) (tainted : bool) (b : bstate)
            (w' : world) (ds : list (outdef * str * str)) : bstate :=
   untaint tainted t
-    (oc_state i key (set_world (exec_b0 t b) w')
+    (oc_state cfg i key (set_world (exec_b0 t b) w')
        (fst (oc_pair H cfg t key (b_cache b) ds)) (snd (oc_pair H cfg t key (b_cache b) ds))).
 
 Lemma execute_eq cfg s i t key tainted b :
@@ -104,10 +104,11 @@ Definition has_result (b : bstate) (j : nat) : Prop :=
 Definition outs_present (t : tdef) (ws : list (str * pstate)) : Prop :=
   forall o, In o (td_outs t) -> exists c, ws_get (out_path t o) ws = PFile c.
 
-(* OutputsLoaded means what it says: a readable result and every declared output in place *)
+(* OutputsLoaded means what it says: every declared output is in place (a stored result need not exist:
+   a build with the cache disabled writes none, C02-F2 / C13-F1 repaired) *)
 Definition loaded_ok (s : sources) (b : bstate) : Prop :=
   forall j tj, node_at s j = Some (NTarget tj) -> rt_loaded (get_rt b j) = true ->
-    has_result b j /\ outs_present tj (w_ws (b_world b)).
+    outs_present tj (w_ws (b_world b)).
 
 Lemma has_result_ext b b' j : rt_ext b b' -> has_result b j -> has_result b' j.
 Proof.
@@ -121,14 +122,13 @@ Lemma loaded_ok_transfer s b b' i :
      ws_get (out_path tj o) (w_ws (b_world b)) = PFile x ->
      exists y, ws_get (out_path tj o) (w_ws (b_world b')) = PFile y) ->
   (forall ti, node_at s i = Some (NTarget ti) -> rt_loaded (get_rt b' i) = true ->
-     has_result b' i /\ outs_present ti (w_ws (b_world b'))) ->
+     outs_present ti (w_ws (b_world b'))) ->
   loaded_ok s b'.
 Proof.
   intros Hok Hext Hld Hws Hi j tj Hn Hl.
   destruct (Nat.eq_dec j i) as [->|Hne]; [apply Hi; assumption|].
-  rewrite Hld in Hl by exact Hne. destruct (Hok j tj Hn Hl) as [Hr Hp]. split.
-  - eapply has_result_ext; eauto.
-  - intros o Ho. destruct (Hp o Ho) as [x Hx]. eapply Hws; eauto.
+  rewrite Hld in Hl by exact Hne. pose proof (Hok j tj Hn Hl) as Hp.
+  intros o Ho. destruct (Hp o Ho) as [x Hx]. eapply Hws; eauto.
 Qed.
 
 (* ------------------------------------------------------------------ restoring: files only appear *)
@@ -221,9 +221,8 @@ Proof.
       apply (loaded_ok_transfer s b b' i); auto.
       * intros j Hj. rewrite Hoth; auto.
       * intros j tj o x _ _ _ Hx. rewrite Hws. eapply Mono; eauto.
-      * intros ti Hti Hl. rewrite Hn in Hti. inversion Hti; subst ti. rewrite Hli in Hl. split.
-        -- exists key. split; [rewrite Hki; exact Hk | rewrite Fc, Hr; discriminate].
-        -- rewrite Hws. apply (outputs_match_present t r); [exact Hm | apply Hall; exact Hl].
+      * intros ti Hti Hl. rewrite Hn in Hti. inversion Hti; subst ti. rewrite Hli in Hl.
+        rewrite Hws. apply (outputs_match_present t r); [exact Hm | apply Hall; exact Hl].
 Qed.
 
 (* ------------------------------------------------------------------ executeTarget: shape of the result *)
@@ -235,8 +234,8 @@ Proof.
   - eapply run_command_frame; eauto.
 Qed.
 
-Lemma oc_state_get_rt_other i key b res cas j :
-  j <> i -> get_rt (oc_state i key b res cas) j = get_rt b j.
+Lemma oc_state_get_rt_other cfg i key b res cas j :
+  j <> i -> get_rt (oc_state cfg i key b res cas) j = get_rt b j.
 Proof. intro Hj. unfold oc_state. cbv zeta. rewrite get_rt_set_rt_other by auto. reflexivity. Qed.
 
 Lemma execute_shape cfg s i t key tainted b ok b' :
@@ -246,7 +245,8 @@ Lemma execute_shape cfg s i t key tainted b ok b' :
   (ok = false -> get_rt b' i = get_rt b i /\ b_cache b' = b_cache b) /\
   (ok = true -> exists res,
       get_rt b' i = mkRt (rt_key (get_rt b i)) (Some (r_outhash res)) true (rt_status (get_rt b i)) /\
-      c_results (b_cache b') = results_set key res (c_results (b_cache b)) /\
+      c_results (b_cache b') = (if cfg_cache cfg then results_set key res (c_results (b_cache b))
+                                else c_results (b_cache b)) /\
       outs_present t (w_ws (b_world b'))).
 Proof.
   intros Hi E. rewrite execute_eq in E.
@@ -257,7 +257,8 @@ Proof.
             (ok = false -> get_rt b' i = get_rt b i /\ b_cache b' = b_cache b) /\
             (ok = true -> exists res,
                get_rt b' i = mkRt (rt_key (get_rt b i)) (Some (r_outhash res)) true (rt_status (get_rt b i)) /\
-               c_results (b_cache b') = results_set key res (c_results (b_cache b)) /\
+               c_results (b_cache b') = (if cfg_cache cfg then results_set key res (c_results (b_cache b))
+                                         else c_results (b_cache b)) /\
                outs_present t (w_ws (b_world b')))).
   { intros w'' Hw E'. inversion E'; subst ok b'.
     split; [intros j _; rewrite get_rt_set_world; apply exec_b0_get_rt|].
@@ -306,7 +307,7 @@ Proof.
   assert (Hls : rt_len b' = rt_len b /\ sts b' = sts b).
   { destruct ok.
     - pose proof (Build_single_proofs.execute_ok H _ _ _ _ _ _ _ _ E) as X.
-      split; [apply (eo_len _ _ _ _ _ _ X) | apply (eo_sts _ _ _ _ _ _ X)].
+      split; [apply (eo_len _ _ _ _ _ _ _ X) | apply (eo_sts _ _ _ _ _ _ _ X)].
     - destruct (execute_fail H _ _ _ _ _ _ _ _ E) as (_ & F2 & _ & _ & F5 & _). auto. }
   destruct Hls as [Hlen Hsts].
   assert (Hki : rt_key (get_rt b' i) = rt_key (get_rt b i)).
@@ -318,7 +319,8 @@ Proof.
   assert (Hres : forall k, rlookup k (c_results (b_cache b)) <> None ->
                            rlookup k (c_results (b_cache b')) <> None).
   { intros k Hk'. destruct ok.
-    - destruct (Ht eq_refl) as (res & _ & -> & _). apply results_set_mono, Hk'.
+    - destruct (Ht eq_refl) as (res & _ & -> & _).
+      destruct (cfg_cache cfg); [apply results_set_mono, Hk' | exact Hk'].
     - destruct (Hf eq_refl) as [_ ->]. exact Hk'. }
   assert (Hext : rt_ext b b').
   { apply (rt_ext_at i); auto. rewrite Hl. discriminate. }
@@ -328,20 +330,21 @@ Proof.
   - intros j tj o x Hj Hnj Ho Hx. exists x. rewrite Hws; [exact Hx|].
     intros o' Ho'. apply (no_overwrite_other s j i tj t o o'); auto.
   - intros ti Hti Hld. rewrite Hn in Hti. inversion Hti; subst ti. rewrite Hli in Hld.
-    destruct (Ht Hld) as (res & _ & Hr & Hp). split; [|exact Hp].
-    exists key. split; [rewrite Hki; exact Hk | rewrite Hr, rlookup_set_same; discriminate].
+    destruct (Ht Hld) as (res & _ & Hr & Hp). exact Hp.
 Qed.
 
 (* ================================================================== LoadDependencyOutputs *)
-(* no direct dependency's target result is unreadable (the guard against the early RETURN) *)
+(* no direct dependency whose outputs are not in place yet has an unreadable target result (the guard
+   against the early RETURN; a dependency that is already loaded is not looked up at all) *)
 Definition readable (s : sources) (b : bstate) (ds : list nat) : Prop :=
   forall d j tj key, In d ds -> resolve s d = Some (j, tj) ->
-    rt_key (get_rt b j) = Some key -> rlookup key (c_results (b_cache b)) <> None.
+    rt_key (get_rt b j) = Some key ->
+    rt_loaded (get_rt b j) = true \/ rlookup key (c_results (b_cache b)) <> None.
 
 Lemma readable_ext s b b' ds : rt_ext b b' -> readable s b ds -> readable s b' ds.
 Proof.
-  intros (_ & _ & K & _ & R) Hr d j tj key Hd Hres Hk. apply R. eapply Hr; eauto.
-  rewrite <- K. exact Hk.
+  intros (_ & _ & K & D & R) Hr d j tj key Hd Hres Hk. rewrite K in Hk.
+  destruct (Hr d j tj key Hd Hres Hk) as [Hl|Hx]; [left; apply D, Hl | right; apply R, Hx].
 Qed.
 
 Lemma readable_tl s b d ds : readable s b (d :: ds) -> readable s b ds.
@@ -392,6 +395,11 @@ Proof.
   assert (Hd0 : d <= d0) by (eapply resolve_le; eauto).
   assert (Hdm : d < m) by (specialize (Hm d0 (or_introl eq_refl)); lia).
   assert (Hdl : d < rt_len b) by (rewrite Hlen; eapply node_at_lt; eauto).
+  destruct (rt_loaded (get_rt b d)) eqn:Eld.
+  { (* outputs already in place: next dependency *)
+    apply (ldo_post_step s m d0 ds' b b); [apply rt_ext_refl | auto | |].
+    - intros j tj Hres. rewrite Er in Hres. inversion Hres; subst j tj. exact Eld.
+    - eapply IH; eauto. }
   destruct (rt_key (get_rt b d)) as [dkey|] eqn:Ek.
   2:{ inversion E; subst. apply ldo_post_stop; auto. apply rt_ext_refl. }
   destruct (rlookup dkey (c_results (b_cache b))) as [r|] eqn:Erl.
@@ -433,13 +441,10 @@ Proof.
         apply orb_false_iff in Eg as [Eg _]. apply negb_false_iff in Eg. exact Eg.
       * eapply IH; eauto.
   - (* unreadable result: re-run and RETURN *)
-    assert (Hunl : rt_loaded (get_rt b d) = false).
-    { destruct (rt_loaded (get_rt b d)) eqn:Eld; [|reflexivity].
-      destruct (Hok d dt Hnd Eld) as [(k & Hk & Hr) _]. rewrite Ek in Hk. inversion Hk; subst k.
-      contradiction. }
-    destruct (execute_A cfg s d dt dkey false b ok b' Hno Hnd Hdl Ek Hunl Hok E) as (L3 & X3 & O3 & D3).
+    destruct (execute_A cfg s d dt dkey false b ok b' Hno Hnd Hdl Ek Eld Hok E) as (L3 & X3 & O3 & D3).
     split; [exact L3|]. split; [exact X3|]. split; [intros j Hj; apply O3; lia|].
-    intros _ Hrd. exfalso. apply (Hrd d0 d dt dkey (or_introl eq_refl) Er Ek). exact Erl.
+    intros _ Hrd. exfalso.
+    destruct (Hrd d0 d dt dkey (or_introl eq_refl) Er Ek) as [Hx|Hx]; [congruence | apply Hx, Erl].
 Qed.
 
 (* ================================================================== the task of one target, mode minimal *)
@@ -491,8 +496,7 @@ Lemma loaded_ok_same s b b' :
   b_cache b' = b_cache b -> b_world b' = b_world b -> loaded_ok s b -> loaded_ok s b'.
 Proof.
   intros Hrt Hc Hw Hok j tj Hn Hl. destruct (Hrt j Hl) as [Hl0 Hk].
-  destruct (Hok j tj Hn Hl0) as [(key & Hkey & Hr) Hp]. unfold has_result. rewrite Hw, Hc. split; [|exact Hp].
-  exists key. split; [rewrite Hk; exact Hkey | exact Hr].
+  rewrite Hw. exact (Hok j tj Hn Hl0).
 Qed.
 
 Lemma loaded_ok_mark s b i st : loaded_ok s b -> loaded_ok s (mark b i st).
@@ -540,9 +544,17 @@ Proof. intro Hj. unfold pt_b0. rewrite get_rt_set_rt_other by auto. reflexivity.
 Lemma pt_b0_key i key b : i < rt_len b -> rt_key (get_rt (pt_b0 i key b) i) = Some key.
 Proof. intro Hi. rewrite pt_b0_same by exact Hi. reflexivity. Qed.
 
-(* ------------------------------------------------------------------ successful targets have a readable result *)
+(* ------------------------------------------------------------------ successful targets are loaded or have a readable result *)
+Definition res_or_loaded (b : bstate) (j : nat) : Prop := rt_loaded (get_rt b j) = true \/ has_result b j.
+
 Definition ok_res (s : sources) (b : bstate) : Prop :=
-  forall j tj, node_at s j = Some (NTarget tj) -> st_ok (rt_status (get_rt b j)) = true -> has_result b j.
+  forall j tj, node_at s j = Some (NTarget tj) -> st_ok (rt_status (get_rt b j)) = true -> res_or_loaded b j.
+
+Lemma res_or_loaded_ext b b' j : rt_ext b b' -> res_or_loaded b j -> res_or_loaded b' j.
+Proof.
+  intros X [Hl|Hr]; [left | right; eapply has_result_ext; eauto].
+  destruct X as (_ & _ & _ & D & _). apply D, Hl.
+Qed.
 
 Lemma rt_ext_status b b' j : rt_ext b b' -> rt_status (get_rt b' j) = rt_status (get_rt b j).
 Proof. intros (_ & S & _). rewrite <- !nth_sts. rewrite S. reflexivity. Qed.
@@ -550,18 +562,23 @@ Proof. intros (_ & S & _). rewrite <- !nth_sts. rewrite S. reflexivity. Qed.
 Lemma ok_res_ext s b b' : rt_ext b b' -> ok_res s b -> ok_res s b'.
 Proof.
   intros X Hr j tj Hn Hs. rewrite (rt_ext_status _ _ j X) in Hs.
-  eapply has_result_ext; eauto.
+  eapply res_or_loaded_ext; eauto.
 Qed.
 
 Lemma has_result_mark b i st j : has_result b j -> has_result (mark b i st) j.
 Proof. intros (key & Hk & Hr). exists key. rewrite rt_key_mark. auto. Qed.
 
+Lemma res_or_loaded_mark b i st j : res_or_loaded b j -> res_or_loaded (mark b i st) j.
+Proof.
+  intros [Hl|Hr]; [left; rewrite rt_loaded_mark; exact Hl | right; apply has_result_mark, Hr].
+Qed.
+
 Lemma ok_res_mark s b i st :
   ok_res s b ->
-  (st_ok st = true -> forall ti, node_at s i = Some (NTarget ti) -> has_result b i) ->
+  (st_ok st = true -> forall ti, node_at s i = Some (NTarget ti) -> res_or_loaded b i) ->
   ok_res s (mark b i st).
 Proof.
-  intros Hr Hi j tj Hn Hs. apply has_result_mark.
+  intros Hr Hi j tj Hn Hs. apply res_or_loaded_mark.
   destruct (Nat.eq_dec j i) as [->|Hne].
   - destruct (rt_status_mark b i st) as [E|E]; rewrite E in Hs; [eapply Hi; eauto | discriminate].
   - rewrite get_rt_mark_other in Hs by auto. eapply Hr; eauto.
@@ -572,14 +589,16 @@ Lemma ok_res_pt_b0 s b i key :
 Proof.
   intros Hst Hr j tj Hn Hs. destruct (Nat.eq_dec j i) as [->|Hne].
   - unfold pt_b0 in Hs. rewrite (get_rt_set_rt_field rt_status) in Hs by reflexivity. congruence.
-  - rewrite pt_b0_other in Hs by exact Hne. destruct (Hr j tj Hn Hs) as (k & Hk & Hres).
+  - rewrite pt_b0_other in Hs by exact Hne. unfold res_or_loaded. rewrite pt_b0_loaded.
+    destruct (Hr j tj Hn Hs) as [Hl|(k & Hk & Hres)]; [left; exact Hl | right].
     exists k. rewrite pt_b0_other by exact Hne. auto.
 Qed.
 
 Lemma ok_res_set_ohash s b i oh : ok_res s b -> ok_res s (set_ohash b i oh).
 Proof.
   intros Hr j tj Hn Hs. rewrite (set_ohash_field rt_status) in Hs by reflexivity.
-  destruct (Hr j tj Hn Hs) as (k & Hk & Hres). exists k.
+  unfold res_or_loaded. rewrite (set_ohash_field rt_loaded) by reflexivity.
+  destruct (Hr j tj Hn Hs) as [Hl|(k & Hk & Hres)]; [left; exact Hl | right]. exists k.
   rewrite (set_ohash_field rt_key) by reflexivity. auto.
 Qed.
 
@@ -601,7 +620,7 @@ Proof.
   intros Hno Hn Hi Hk Hl Hok E Hr.
   destruct (execute_A cfg s i t key tn b ok b3 Hno Hn Hi Hk Hl Hok E) as (L & X & O & D).
   apply ok_res_mark; [eapply ok_res_ext; eauto|].
-  intros Hst ti Hti. destruct ok; [|discriminate]. apply (proj1 (L i ti Hti D)).
+  intros Hst ti Hti. destruct ok; [|discriminate]. left. exact D.
 Qed.
 
 Lemma pt_post_failed s i b : loaded_ok s b -> pt_post s i b (mark b i TFailed).
@@ -632,7 +651,7 @@ Proof.
     + rewrite rt_len_mark, (rt_ext_len _ _ X1). apply pt_b0_len.
     + intros j Hj. rewrite get_rt_mark_other, O1 by lia. apply pt_b0_other. lia.
     + intro Hres. apply ok_res_mark; [eapply ok_res_ext; eauto|].
-      intros _ ti Hti. apply (proj1 (L1 i ti Hti D1)).
+      intros _ ti Hti. left. exact D1.
   - assert (Hm' : loaded_ok s bm /\ rt_ext b0 bm /\ (forall j, j <> i -> get_rt bm j = get_rt b0 j) /\
                   rt_loaded (get_rt bm i) = false).
     { destruct Hbm as [[-> _] | (res & Hr & _ & Hld)].
@@ -682,7 +701,7 @@ Proof.
     - intros j Hj. rewrite get_rt_mark_other by lia. unfold set_ohash.
       rewrite get_rt_set_rt_other by lia. apply pt_b0_other. lia.
     - intro Hres. apply ok_res_mark; [apply ok_res_set_ohash, R0, Hres|].
-      intros _ ti _. apply (has_result_at _ i key res); [|exact Hr].
+      intros _ ti _. right. apply (has_result_at _ i key res); [|exact Hr].
       rewrite (set_ohash_field rt_key) by reflexivity. exact K0. }
   destruct (load_dep_outputs H (S (length (s_nodes s))) cfg s (td_deps t) b0) as [okd b2] eqn:E2.
   assert (Hdd : forall x, In x (td_deps t) -> x < i) by (intros x Hx; apply (Hwf i _ Hn); exact Hx).
@@ -776,7 +795,7 @@ Qed.
 Lemma execute_sts cfg s i t key tn b ok b' : execute H cfg s i t key tn b = (ok, b') -> sts b' = sts b.
 Proof.
   intro E. destruct ok.
-  - apply (eo_sts _ _ _ _ _ _ (Build_single_proofs.execute_ok H _ _ _ _ _ _ _ _ E)).
+  - apply (eo_sts _ _ _ _ _ _ _ (Build_single_proofs.execute_ok H _ _ _ _ _ _ _ _ E)).
   - destruct (execute_fail H _ _ _ _ _ _ _ _ E) as (_ & F2 & _). exact F2.
 Qed.
 
@@ -792,6 +811,7 @@ Proof.
   induction f as [|f IH]; intros ds b ok b' E; cbn [load_dep_outputs] in E; [inversion E; reflexivity|].
   destruct ds as [|d0 ds']; [inversion E; reflexivity|].
   destruct (resolve s d0) as [[d dt]|]; [|eapply IH; eauto].
+  destruct (rt_loaded (get_rt b d)); [eapply IH; eauto|].
   destruct (rt_key (get_rt b d)) as [dkey|]; [|inversion E; reflexivity].
   destruct (rlookup dkey (c_results (b_cache b))) as [r|]; [|eapply execute_sts; eauto].
   destruct (load_outputs H d dt r b) as [ok1 b1] eqn:El. apply load_outputs_sts in El.
@@ -910,14 +930,14 @@ Qed.
 
 (* ================================================================== Part A theorems *)
 (* single task, any configuration, any cache (faults included): when LoadDependencyOutputs reports success
-   and no direct dependency's result was unreadable, every output of every direct (alias-resolved)
-   dependency is in the workspace, the dependency is marked loaded and its result is readable *)
+   and no direct dependency that was still to be loaded had an unreadable result, every output of every
+   direct (alias-resolved) dependency is in the workspace and the dependency is marked loaded *)
 Theorem deps_present cfg s f ds b b' :
   wf_src s -> no_overwrite s -> rt_len b = length (s_nodes s) -> loaded_ok s b -> readable s b ds ->
   load_dep_outputs H f cfg s ds b = (true, b') ->
   loaded_ok s b' /\
   forall d j tj, In d ds -> resolve s d = Some (j, tj) ->
-    rt_loaded (get_rt b' j) = true /\ has_result b' j /\ outs_present tj (w_ws (b_world b')).
+    rt_loaded (get_rt b' j) = true /\ outs_present tj (w_ws (b_world b')).
 Proof.
   intros Hwf Hno Hlen Hok Hrd E.
   assert (Hm : forall d, In d ds -> d < S (list_max ds)).
@@ -990,7 +1010,8 @@ Proof.
   rewrite forallb_forall in Hall. pose proof (resolve_alias_ok s k b Hcl _ _ _ _ (Hall d Hd) Hres) as Hj.
   assert (Hji : j <> i) by (apply (proj1 Hcl) in Hj; lia).
   rewrite pt_b0_other in Hk by exact Hji.
-  destruct (Hr j tj (resolve_target _ _ _ _ Hres) Hj) as (k0 & Hk0 & Hrl).
+  rewrite pt_b0_loaded.
+  destruct (Hr j tj (resolve_target _ _ _ _ Hres) Hj) as [Hl|(k0 & Hk0 & Hrl)]; [left; exact Hl | right].
   rewrite Hk in Hk0. inversion Hk0; subst k0. exact Hrl.
 Qed.
 
@@ -1004,7 +1025,7 @@ Theorem build_deps_present cfg s roots w c k t dh b2 :
   dep_hashes s b (td_deps t) = Some dh ->
   load_dep_outputs H (S (length (s_nodes s))) cfg s (td_deps t) (pt_b0 k (pt_key H s t dh) b) = (true, b2) ->
   (forall d j tj, In d (td_deps t) -> resolve s d = Some (j, tj) ->
-     rt_loaded (get_rt b2 j) = true /\ has_result b2 j /\ outs_present tj (w_ws (b_world b2))) /\
+     rt_loaded (get_rt b2 j) = true /\ outs_present tj (w_ws (b_world b2))) /\
   dep_parts s (w_ws (b_world b2)) (td_deps t) <> None.
 Proof.
   intros Hwf Hno Hn b Hall Hdh E.
@@ -1449,6 +1470,11 @@ Proof.
     { intros d j tj Hd. apply Hdeps. right. exact Hd. }
     destruct (resolve s d0) as [[j tj]|] eqn:Er.
     + pose proof (resolve_target _ _ _ _ Er) as Hn.
+      destruct (rt_loaded (get_rt bM j)) eqn:Eld.
+      { destruct (IH f bM HS ltac:(lia) Hdeps') as (bM' & E & HS' & Hmono & Hall).
+        exists bM'. split; [exact E|]. split; [exact HS'|]. split; [exact Hmono|].
+        intros d j' tj' [<-|Hd] Hres; [|eapply Hall; eauto].
+        rewrite Er in Hres. inversion Hres; subst j' tj'. apply Hmono, Eld. }
       destruct (load_dep_M bA bM j tj HG HS Hn (Hdeps d0 j tj (or_introl eq_refl) Er))
         as (key & r & b1 & Hk & Hr & El & HS1 & Hl1 & Hmono1).
       rewrite Hk, Hr, El. destruct (plain_target s j tj Hpl Hn) as [_ Hnc]. rewrite Hnc.
@@ -1465,7 +1491,8 @@ Qed.
 (* ------------------------------------------------------------------ executeTarget in both runs *)
 Definition done_cache (cfg : config) (t : tdef) (key : str) (tn : bool) (c : cache)
            (ds : list (outdef * str * str)) : cache :=
-  let c1 := mkCache (results_set key (fst (oc_pair H cfg t key c ds)) (c_results c))
+  let c1 := mkCache (if cfg_cache cfg then results_set key (fst (oc_pair H cfg t key c ds)) (c_results c)
+                     else c_results c)
                     (snd (oc_pair H cfg t key c ds)) (c_taint c) in
   if tn then mkCache (c_results c1) (c_cas c1) (label_remove (td_label t) (c_taint c1)) else c1.
 
@@ -1523,7 +1550,7 @@ Proof.
   destruct (present_digests H t (td_outs t) (w_ws wm)) as [ds|]; [|apply (Hfail _ _ Hext EA EM)].
   inversion EA; subst okA bA'. inversion EM; subst okM bM'.
   rewrite !exec_done_cache, !exec_done_world, !exec_done_rt by assumption.
-  rewrite Hc. unfold done_cache. rewrite (oc_pair_cfg cfgA cfgM) by congruence.
+  rewrite Hc. unfold done_cache. rewrite (oc_pair_cfg cfgA cfgM) by congruence. rewrite HcA, HcM.
   repeat split; auto.
 Qed.
 
@@ -1660,8 +1687,9 @@ Definition ds_ok (ds : list (outdef * str * str)) : Prop :=
   forall e, In e ds -> exists o x, e = (o, out_digest H o x, x) /\ exists r, x = "T"%char :: r.
 
 Lemma done_cache_results cfg t key tn c ds :
+  cfg_cache cfg = true ->
   c_results (done_cache cfg t key tn c ds) = results_set key (fst (oc_pair H cfg t key c ds)) (c_results c).
-Proof. unfold done_cache. destruct tn; reflexivity. Qed.
+Proof. intro Hc. unfold done_cache. rewrite Hc. destruct tn; reflexivity. Qed.
 
 Lemma done_cache_cas cfg t key tn c ds :
   c_cas (done_cache cfg t key tn c ds) = snd (oc_pair H cfg t key c ds).
@@ -1672,7 +1700,7 @@ Lemma done_cache_cinv cfg t key tn c ds :
   cinv (done_cache cfg t key tn c ds).
 Proof.
   intros Hn Hc [Hs Hres] Hds. unfold cinv, res_ok.
-  rewrite done_cache_results, done_cache_cas, (oc_pair_plain cfg t key c ds Hn Hc).
+  rewrite done_cache_results by exact Hc. rewrite done_cache_cas, (oc_pair_plain cfg t key c ds Hn Hc).
   destruct (td_outs t) as [|o0 outs]; cbn [fst snd].
   - split; [exact Hs|]. intros k r def dg Hr Hin.
     destruct (str_eq_dec key k) as [->|Hne].
@@ -1696,7 +1724,7 @@ Qed.
 Lemma execute_len cfg i t key tn b ok b' : execute H cfg s i t key tn b = (ok, b') -> rt_len b' = rt_len b.
 Proof.
   intro E. destruct ok.
-  - apply (eo_len _ _ _ _ _ _ (Build_single_proofs.execute_ok H _ _ _ _ _ _ _ _ E)).
+  - apply (eo_len _ _ _ _ _ _ _ (Build_single_proofs.execute_ok H _ _ _ _ _ _ _ _ E)).
   - destruct (execute_fail H _ _ _ _ _ _ _ _ E) as (_ & _ & _ & _ & F5 & _). exact F5.
 Qed.
 
@@ -1726,7 +1754,8 @@ Proof.
   - rewrite rt_len_mark. exact Hl3.
   - intros j Hj. rewrite get_rt_mark_other, Hoth by auto. apply pt_b0_other, Hj.
   - intros key' Hk'. rewrite b_cache_mark. destruct ok.
-    + destruct (Ht eq_refl) as (res & _ & Hr & _). rewrite Hr. apply rlookup_set_other. congruence.
+    + destruct (Ht eq_refl) as (res & _ & Hr & _). rewrite Hr.
+      destruct (cfg_cache cfg); [apply rlookup_set_other; congruence | reflexivity].
     + destruct (Hf eq_refl) as [_ Hc]. rewrite Hc. reflexivity.
   - (* node k *)
     intro Hok. destruct ok.
@@ -1739,7 +1768,7 @@ Proof.
     split; [rewrite rt_loaded_mark, exec_done_rt by exact Hk; reflexivity|].
     set (res := fst (oc_pair H cfg t key (b_cache (pt_b0 k key b)) ds)).
     exists key, res. rewrite rt_key_mark, rt_ohash_mark, b_cache_mark, b_world_mark.
-    rewrite exec_done_rt by exact Hk. rewrite exec_done_cache, done_cache_results, exec_done_world.
+    rewrite exec_done_rt by exact Hk. rewrite exec_done_cache, done_cache_results, exec_done_world by exact Hcc.
     cbn [rt_key rt_ohash]. split; [apply pt_b0_key; rewrite <- pt_b0_len with (i := k) (key := key); exact Hk|].
     split; [apply rlookup_set_same|]. split; [reflexivity|].
     destruct (present_digests_spec H t _ _ _ Epd) as [Hmap Hall].
@@ -1910,7 +1939,7 @@ Lemma execute_exec_stop cfg i t key tn b ok b' :
 Proof.
   intro E. destruct ok.
   - pose proof (Build_single_proofs.execute_ok H _ _ _ _ _ _ _ _ E) as X.
-    split; [apply (eo_exec _ _ _ _ _ _ X) | apply (eo_stop _ _ _ _ _ _ X)].
+    split; [apply (eo_exec _ _ _ _ _ _ _ X) | apply (eo_stop _ _ _ _ _ _ _ X)].
   - destruct (execute_fail H _ _ _ _ _ _ _ _ E) as (_ & _ & F3 & F4 & _). auto.
 Qed.
 
@@ -2012,7 +2041,7 @@ Proof.
     + intro key'. destruct (str_eq_dec key' key) as [->|Hne].
       * right. rewrite rt_key_mark, KA. apply pt_b0_key. rewrite <- (pt_b0_len k key bA). exact HkA.
       * left. rewrite b_cache_mark. destruct okA.
-        -- destruct (HtA eq_refl) as (res & _ & Hr & _). rewrite Hr. apply rlookup_set_other. congruence.
+        -- destruct (HtA eq_refl) as (res & _ & Hr & _). rewrite Hr, HcA. apply rlookup_set_other. congruence.
         -- destruct (HfA eq_refl) as [_ Hc]. rewrite Hc. reflexivity.
   - apply (sim_step k t b0A bM2); auto.
     + rewrite !b_exec_mark, XA, XM. apply exec_start_exec, Sx.
@@ -2513,14 +2542,25 @@ Example blob_fault_dependency_rerun :
   nth 1 (x_stat LMinimal x_ops_blob_taint) [] = [THit; THit; TExecuted].
 Proof. repeat split; vm_compute; reflexivity. Qed.
 
-(* a cache-disabled build stores output-less results: the next cached build re-runs everything in mode
-   all (restore fails) and nothing in mode minimal *)
+(* a cache-disabled build used to store output-less results, and the next cached build re-ran everything in
+   mode all (restore failed) and nothing in mode minimal (formerly lockstep_refuted_cache_off; C02-F2 / C13-F1).
+   A disabled cache is no longer written: build, build with the cache off, build -- both modes run
+   everything, everything, nothing, with the same statuses; and a cached build after a cache-disabled first
+   build runs everything in both modes *)
 Definition x_ops_cache_off (m : lmode) : list op :=
   [OpSources x_s3; OpBuild (mkCfg m false false) [2]; OpBuild (mkCfg m true false) [2]].
-Theorem lockstep_refuted_cache_off :
-  nth 1 (x_exec LAll x_ops_cache_off) [] = [["a"]; ["b"]; ["c"]]%char /\
-  nth 1 (x_exec LMinimal x_ops_cache_off) [] = [].
-Proof. split; vm_compute; reflexivity. Qed.
+Definition x_ops_cache_toggle (m : lmode) : list op :=
+  [OpSources x_s3; OpBuild (mkCfg m true false) [2]; OpBuild (mkCfg m false false) [2];
+   OpBuild (mkCfg m true false) [2]].
+Theorem lockstep_cache_off_in_lockstep :
+  x_exec LAll x_ops_cache_off = [[["a"]; ["b"]; ["c"]]; [["a"]; ["b"]; ["c"]]]%char /\
+  x_exec LMinimal x_ops_cache_off = [[["a"]; ["b"]; ["c"]]; [["a"]; ["b"]; ["c"]]]%char /\
+  x_stat LAll x_ops_cache_off = x_stat LMinimal x_ops_cache_off /\
+  x_exec LAll x_ops_cache_toggle = [[["a"]; ["b"]; ["c"]]; [["a"]; ["b"]; ["c"]]; []]%char /\
+  x_exec LMinimal x_ops_cache_toggle = [[["a"]; ["b"]; ["c"]]; [["a"]; ["b"]; ["c"]]; []]%char /\
+  x_stat LAll x_ops_cache_toggle = x_stat LMinimal x_ops_cache_toggle /\
+  sy_cache (run_history hI (x_ops_cache_toggle LAll)) = sy_cache (run_history hI (x_ops_cache_toggle LMinimal)).
+Proof. do 6 (split; [vm_compute; reflexivity|]). vm_compute. reflexivity. Qed.
 
 (* a directory where a file output is declared (this history used to refute the lock-step: mode all could
    not restore a's output over the directory and re-ran a, mode minimal did not look; C06-F3): the restore
@@ -2554,17 +2594,27 @@ Lemma ldo_load_failure f cfg s d0 ds b d dt dkey r b1 :
               if ok3 then load_dep_outputs H f cfg s ds b3 else (false, b3)
   else (false, b2).
 Proof.
-  intros Hr Hk Hl El. cbn [load_dep_outputs]. rewrite Hr, Hk, Hl, El. cbn [negb orb].
+  intros Hr Hk Hl El.
+  assert (Eld : rt_loaded (get_rt b d) = false).
+  { unfold load_outputs in El. destruct (rt_loaded (get_rt b d)); [discriminate | reflexivity]. }
+  cbn [load_dep_outputs]. rewrite Hr, Eld, Hk, Hl, El. cbn [negb orb].
   destruct (load_dep_outputs H f cfg s (td_deps dt) b1) as [ok2 b2]. destruct ok2; reflexivity.
 Qed.
 
-(* a dependency whose result cannot be read is re-run and the loop RETURNS: the remaining
-   dependencies are not looked at *)
+(* a dependency that is not loaded yet and whose result cannot be read is re-run and the loop RETURNS: the
+   remaining dependencies are not looked at *)
 Lemma ldo_unreadable_returns f cfg s d0 ds b d dt dkey :
-  resolve s d0 = Some (d, dt) -> rt_key (get_rt b d) = Some dkey ->
+  resolve s d0 = Some (d, dt) -> rt_loaded (get_rt b d) = false -> rt_key (get_rt b d) = Some dkey ->
   rlookup dkey (c_results (b_cache b)) = None ->
   load_dep_outputs H (S f) cfg s (d0 :: ds) b = execute H cfg s d dt dkey false b.
-Proof. intros Hr Hk Hl. cbn [load_dep_outputs]. rewrite Hr, Hk, Hl. reflexivity. Qed.
+Proof. intros Hr Hld Hk Hl. cbn [load_dep_outputs]. rewrite Hr, Hld, Hk, Hl. reflexivity. Qed.
+
+(* a dependency whose outputs are already in place (executed or restored earlier in this build) is not
+   looked up in the cache at all *)
+Lemma ldo_loaded_skips f cfg s d0 ds b d dt :
+  resolve s d0 = Some (d, dt) -> rt_loaded (get_rt b d) = true ->
+  load_dep_outputs H (S f) cfg s (d0 :: ds) b = load_dep_outputs H f cfg s ds b.
+Proof. intros Hr Hld. cbn [load_dep_outputs]. rewrite Hr, Hld. reflexivity. Qed.
 
 End Faults.
 
@@ -2580,5 +2630,5 @@ Proof.
   split; [apply loaded_ok_none; vm_compute; reflexivity|]. split; [|split; vm_compute; reflexivity].
   intros d j tj key Hd Hres Hk.
   destruct Hd as [<-|[<-|[]]]; vm_compute in Hres; inversion Hres; subst j tj;
-    vm_compute in Hk; inversion Hk; subst key; vm_compute; discriminate.
+    vm_compute in Hk; inversion Hk; subst key; right; vm_compute; discriminate.
 Qed.
